@@ -987,20 +987,21 @@ def _check_training_set(w, g, Xl, Yl, Sl, ref, len_scale, n_min, n_max, optim_st
         w.violate("C15", "train-noise-size", "GP noise vector size differs from training set size",
                   n=n, ns2=int(np.size(g.s2)))
     # nearest, ordered, sized
-    dist = udist(Xl, ref, len_scale, optim_state["lb"], optim_state["ub"], optim_state["scale"],
-                 optim_state["periodic_vars"])
-    if dist.ndim > 1:
-        dist = np.min(dist, axis=1)
-    dsel = udist(gX, ref, len_scale, optim_state["lb"], optim_state["ub"], optim_state["scale"],
-                 optim_state["periodic_vars"])
-    if dsel.ndim > 1:
-        dsel = np.min(dsel, axis=1)
-    if n > 1 and np.any(np.diff(dsel) < -1e-12 * max(1.0, float(np.max(dsel)))):
-        w.violate("C15", "train-not-ordered", "GP training set is not ordered by distance from the reference point")
+    # independent of pybads' own distance routine: squared length-scaled Euclidean distance, computed from differences
+    ls = np.asarray(len_scale, dtype=float)
+
+    def d2(A):
+        return np.sum(((np.asarray(A, dtype=float) - ref[None, :]) / ls) ** 2, axis=1)
+    dist = d2(Xl)
+    dsel = d2(gX)
+    slack = 1e-9 * max(float(np.max(dsel)) if n else 0.0, 1e-300)
+    if n > 1 and np.any(np.diff(dsel) < -slack):
+        w.violate("C15", "train-not-ordered", "GP training set is not ordered by distance from the reference point",
+                  worst=float(np.min(np.diff(dsel))), dmax=float(np.max(dsel)))
     ds = np.sort(dist)
     if n <= n_logged and n > 0:
         # the chosen multiset of distances must be the n smallest
-        if not np.allclose(np.sort(dsel), ds[:n], rtol=1e-12, atol=1e-15):
+        if not np.allclose(np.sort(dsel), ds[:n], rtol=1e-9, atol=slack):
             w.violate("C15", "train-not-nearest", "GP training set is not the set of nearest logged points",
                       n=n, worst_sel=float(np.max(dsel)), nth=float(ds[n - 1]))
     lo = min(n_logged, n_min)
